@@ -212,6 +212,10 @@ func genTxn(r *rand.Rand, id int, clients int, o genOpts, keys []string) TxnProg
 			op = Op{Kind: "get", Keys: []string{pick(r, keys)}}
 		case x < 0.30:
 			op = Op{Kind: "bget", Keys: subset(r, keys, 1, 4)}
+			if r.Intn(4) == 0 {
+				// a key listed twice
+				op.Keys = append(op.Keys, pick(r, op.Keys))
+			}
 		case x < 0.37:
 			bk := append(append([]string(nil), keys...), o.bounds...)
 			op = Op{Kind: "iter"}
